@@ -6,14 +6,13 @@ import PilotaModel.Idl.Parser
     * a successful `p` returns a SUFFIX of its input (so nothing grows, loops terminate);
     * `p` never takes a panic branch;
     * `p` runs out of recursion budget only when `s` contains at least `w` nesting characters
-      (`<`, `[`, `{`, `-`: the characters that open a recursive frame of `Ty::parse`,
-      `ConstValue::parse`, `IntConstant::parse`).
+      (`<`, `[`, `{`: the characters that open a recursive frame of `Ty::parse`, `ConstValue::parse`).
   Every combinator preserves `Good w`; consuming a tag that contains a nesting character pays
   for one more level (`Good.andThen_tag_nest`).
 -/
 namespace Pilota.Idl
 
-def isNestChar (c : Char) : Bool := c == '<' || c == '[' || c == '{' || c == '-'
+def isNestChar (c : Char) : Bool := c == '<' || c == '[' || c == '{'
 
 /-- number of characters that can open a recursive parser frame -/
 def nest (s : List Char) : Nat := s.countP isNestChar
